@@ -59,6 +59,12 @@ def run(chk: Check, proj: Project) -> None:
     s5b_serialize_order(chk, proj)
     s6_container_loop(chk, proj)
     s7_foreign_leaks(chk, proj)
+    s8_built_patterns(chk, proj)
+    s9_none_before_check(chk, proj)
+    from . import C10
+
+    chk.borrow("S10", "the patched Template.compile_nodelist keeps Django's error handling: only Parser.parse() runs inside the try whose handler reads `e.token` (the library's own tokenizer errors carry no token) (shared with C10-S1)",
+               lambda sub: C10.s1(sub, proj), only=lambda o: "compile_nodelist" in o.construct)
 
 
 # ---------------------------------------------------------------------------------------------
@@ -540,6 +546,94 @@ def s5b_serialize_order(chk: Check, proj: Project) -> None:
     ok = bool(tr) and bool(pf) and max(tr) < min(pf) and "prefix-misplaced" not in order
     chk.ob("S5b", "util.tag_parser:TagValuePart.serialize:wrap-order", m.loc(f), ok, f"wrapping steps in order: {order}" if ok else
            f"the serialisation steps are {order}: a filter / spread prefix is applied before (inside) the translation wrapper, so `name|default:_(\"x\")` serialises to text that re-parses to different arguments")
+
+
+def s8_built_patterns(chk: Check, proj: Project) -> None:
+    chk.rule("S8", "the scanner's patterns that are BUILT at run time (from the stop characters) cannot backtrack exponentially: an alternation whose branches overlap (`\\\\.|[^q]` both start with a backslash) under a star is the LAST thing in the pattern - nothing after it can fail and force the star to try its other readings")
+    import re._parser as sre  # type: ignore[import-not-found]
+
+    m, f = proj.func("util.template_parser", "_compile_take_until_pattern")
+    chk.analysed(fkey(m, f))
+    n = 0
+    for st in [x for x in stmts(f) if isinstance(x, ast.Assign) and isinstance(x.value, ast.JoinedStr)]:
+        # instantiate the f-string with a representative stop set
+        txt = ""
+        okf = True
+        for v in st.value.values:
+            if isinstance(v, ast.Constant):
+                txt += str(v.value)
+            elif isinstance(v, ast.FormattedValue) and isinstance(v.value, ast.Name):
+                txt += "'\""
+            else:
+                okf = False
+        if not okf:
+            chk.undecided("S8", f"util.template_parser:_compile_take_until_pattern:{short(st, 50)}", m.loc(st), "pattern template not instantiable")
+            continue
+        try:
+            tree = list(sre.parse(txt))
+        except Exception as e:  # noqa: BLE001
+            chk.undecided("S8", f"util.template_parser:_compile_take_until_pattern:{short(st, 50)}", m.loc(st), f"pattern does not parse: {e}")
+            continue
+        n += 1
+        bad = None
+        for i, (op, arg) in enumerate(tree):
+            if str(op) in ("MAX_REPEAT", "MIN_REPEAT") and arg[1] == sre.MAXREPEAT:
+                inner = list(arg[2])
+                # unwrap a non-capturing group
+                while len(inner) == 1 and str(inner[0][0]) == "SUBPATTERN":
+                    inner = list(inner[0][1][-1])
+                amb = False
+                if len(inner) == 1 and str(inner[0][0]) == "BRANCH":
+                    firsts = []
+                    for alt in inner[0][1][1]:
+                        alt = list(alt)
+                        if not alt:
+                            continue
+                        fo, fa = alt[0]
+                        from ..regexlang import charset
+
+                        try:
+                            firsts.append(charset(fo, fa, False, 0))
+                        except Exception:  # noqa: BLE001
+                            firsts.append(None)
+                    for a_ in range(len(firsts)):
+                        for b_ in range(a_ + 1, len(firsts)):
+                            if firsts[a_] is None or firsts[b_] is None or (firsts[a_] & firsts[b_]):
+                                amb = True
+                if amb and i != len(tree) - 1:
+                    bad = tree[i + 1]
+        chk.ob("S8", f"util.template_parser:_compile_take_until_pattern:{short(st, 50)}", m.loc(st), bad is None,
+               "no overlapping alternation under a star is followed by anything that can fail" if bad is None else
+               f"in `{txt}` the star over overlapping alternatives (a backslash is read both as `\\\\.` and as `[^..]`) is followed by `{str(bad[0])}`, which can fail: on an unterminated string followed by n backslashes the matcher tries Fibonacci(n) readings (0.3 s at 28, no answer at 56) inside a single re.match")
+    chk.floor("S8", n, 2)
+
+
+def s9_none_before_check(chk: Check, proj: Project) -> None:
+    chk.rule("S9", "a value that may be None (no component name given) is not handed to string helpers before the test that raises TemplateSyntaxError for it")
+    from ..cfg import CFG
+
+    m, f = proj.func("tag_formatter", "ComponentFormatter.parse")
+    chk.analysed(fkey(m, f))
+    maybe_none = sorted({t.id for st in stmts(f) for t, v in [(t, getattr(st, "value", None)) for t in (st.targets if isinstance(st, ast.Assign) else [])] if isinstance(t, ast.Name) and isinstance(v, ast.Constant) and v.value is None})
+    cfg = CFG(f)
+    dom = cfg.dominators()
+    n = 0
+    for v in maybe_none:
+        guards = [nd for nd in cfg.nodes if nd.kind == "test" and nd.ast is not None and norm(nd.ast) in (f"not {v}", v, f"{v} is None", f"{v} is not None")
+                  and any(isinstance(r, ast.Raise) and exc_class_of_raise(r) == "TemplateSyntaxError" for r in ast.walk(nd.meta.get("owner"))) ] if True else []
+        uses = [c for c in calls(f) if any(isinstance(a, ast.Name) and a.id == v for a in c.args) and not (isinstance(c.func, ast.Attribute) and c.func.attr in ("append",))]
+        uses += [x for x in ast.walk(f) if isinstance(x, ast.Subscript) and isinstance(x.value, ast.Name) and x.value.id == v and isinstance(x.ctx, ast.Load)]
+        for u in uses:
+            n += 1
+            un = cfg.node_containing(u)
+            # guarded if the path condition of the use says `<v>` is truthy (an enclosing `if <v>:` or an earlier
+            # `if not <v>: raise`), or a raising guard dominates it
+            ok = any((pol and t in (v, f"{v} is not None")) or ((not pol) and t in (f"not {v}", f"{v} is None")) for t, pol in cond_atoms(enclosing_stmt(u))) \
+                or (bool(guards) and all(any(cfg.dominates(g, x, dom) for g in guards) for x in un))
+            chk.ob("S9", f"tag_formatter:ComponentFormatter.parse:{short(u, 40)}:after-none-check", m.loc(u), ok,
+                   f"`{short(u)}` runs only after the `{v}` test that raises TemplateSyntaxError" if ok else
+                   f"`{short(u)}` receives `{v}`, which is None when the tag has keyword arguments but no `name=`: `{{% component key=\"value\" / %}}` fails with AttributeError / TypeError out of Template() instead of TemplateSyntaxError")
+    chk.floor("S9", n, 1)
 
 
 def _django_leaky_helpers() -> Dict[str, str]:
